@@ -442,6 +442,13 @@ def oracle(ctx: Ctx, m: OptMonitor, text, opts, run):
         tmp = [n for n in names if n.startswith("LP") or n.endswith("FLIP")]
         if tmp:
             out.append(({"kind": "leftover-temporary", "residue": res.name, "pos": pos, "atom": tmp[0]}, f"{res} still holds {tmp}"))
+        # the two alternative protons of a protonated carboxyl group (HD1/HD2 of ASP/ASH, HE1/HE2 of GLU/GLH) are
+        # placed together and one of them is a placeholder: a run that adds atoms ends with at most one of them
+        # (Carboxylic.finalize / HydrogenRoutines.cleanup; theorems ash_clean, glh_clean, cleanup_spec)
+        if adding and isinstance(res, aa.Amino):
+            for resn, first, second in (("ASP", "HD1", "HD2"), ("ASH", "HD1", "HD2"), ("GLU", "HE1", "HE2"), ("GLH", "HE1", "HE2")):
+                if res.name == resn and first in names and second in names:
+                    out.append(({"kind": "leftover-temporary", "residue": res.name, "pos": pos, "atom": first}, f"{res} still holds both alternative carboxylic protons {first} and {second}"))
         ref = getattr(res, "reference", None)
         if not adding or ref is None or not isinstance(res, (aa.Amino, na.Nucleic, aa.WAT)):
             continue
@@ -638,6 +645,17 @@ def run(ctx: Ctx):
         c = G.centroid(res)
         waters = [G.water(rng, "A", 900 + i, c, 6.0) for i in range(rng.randint(0, 4))]
         check_case(ctx, drv, G.to_pdb([res], waters), ["--ff=" + rng.choice(["AMBER", "PARSE", "CHARMM", "SWANSON"])], {"kind": "protonated-carboxyl", "mode": "default", "target": must, "pos": "?"}, seen_sig)
+    # the same groups protonated by the pKa route (ASH / GLH applied as patches at low pH), with and without the
+    # optimisation that normally resolves the two alternative protons: without it only cleanup() does
+    for ci in range(ctx.scale(6, 150)):
+        must = rng.choice(["ASP", "GLU"])
+        _f, res = G.window(rng, rng.choice([3, 4, 5]), must_have=must)
+        G.set_chain(res, "A", 1)
+        c = G.centroid(res)
+        waters = [G.water(rng, "A", 900 + i, c, 6.0) for i in range(rng.randint(0, 2))]
+        mode = [[], ["--noopt"], ["--nodebump", "--noopt"], ["--nodebump"]][ci % 4]
+        opts = ["--ff=" + rng.choice(["AMBER", "PARSE", "CHARMM", "SWANSON"]), "--titration-state-method=propka", f"--with-ph={rng.choice([0.5, 1.0, 2.0, 3.5])}"] + mode
+        check_case(ctx, drv, G.to_pdb([res], waters), opts, {"kind": "carboxyl-protonated-by-pH", "mode": " ".join(mode) or "default", "target": must, "pos": "?"}, seen_sig)
     n = ctx.scale(70, 2500)
     for ci in range(n):
         force = G.AA3[ci % len(G.AA3)] if ci % 2 == 0 else None
